@@ -25,7 +25,7 @@ for d in sorted((VERIF / "seeded").glob("C*_*")):
             now[meta["id"]]["exit"][c] = p.returncode
             now[meta["id"]]["rules"] += rules
     finally:
-        subprocess.run("git -C /repo checkout -- .", shell=True, check=True)
+        subprocess.run("git -C /repo checkout -- . && git -C /repo clean -fdq circuitgraph", shell=True, check=True)
         subprocess.run("rm -rf /tmp/seed_ev", shell=True)
     if meta.get("expected") == "silent":
         # a seed that a later repair of the repository made harmless (see meta.json): the checks must now stay silent on it
